@@ -123,6 +123,11 @@ func (c *CertRevocationValidator) UnmarshalCaddyfile(d *caddyfile.Dispenser) err
 	c.OCSPConfig = caddyConfig.OCSPConfig
 	c.CRLConfig = caddyConfig.CRLConfig
 	c.Mode = caddyConfig.Mode
+	//validation depends on the parsed mode
+	err = parseMode(c)
+	if err != nil {
+		return err
+	}
 	err = validateConfig(c)
 	if err != nil {
 		return err
